@@ -12,7 +12,7 @@ use std::cell::RefCell;
 pub const MAGIC_K: u32 = 0x4B45_5921;
 pub const MAGIC_V: u32 = 0x5641_4C21;
 pub const POISON32: u32 = 0xA5A5_A5A5;
-pub const WATCHDOG_CALLBACKS: u32 = 50_000;
+pub const WATCHDOG_CALLBACKS: u32 = 2_000_000;
 
 pub const NCB: usize = 18;
 
